@@ -244,6 +244,12 @@ class Tr:
             return self.block(rest, tail, ind, bound)
         if isinstance(s, ast.FunctionDef):
             return self.block(rest, tail, ind, bound)         # inner function: translated separately
+        if isinstance(s, ast.If) and isinstance(s.test, ast.NamedExpr):
+            # `if (x := e):`  ==  `x = e` followed by `if x:`
+            first = ast.Assign(targets=[ast.Name(id=s.test.target.id, ctx=ast.Store())], value=s.test.value,
+                               lineno=s.lineno, col_offset=s.col_offset)
+            second = ast.If(test=ast.Name(id=s.test.target.id, ctx=ast.Load()), body=s.body, orelse=s.orelse)
+            return self.block([first, second] + rest, tail, ind, bound)
         if isinstance(s, ast.If):
             c = self.test(s.test)
             return (f'{pad}W.bind (W.gets fun s_ => {c}) fun (c_ : Bool) =>\n{pad}if c_ then\n'
@@ -299,8 +305,12 @@ class Tr:
             return self.block(rest, tail, ind, bound)
         if spec[0] == 'raise':
             return pad + f'W.raise "{spec[1]}"'
+        if spec[0] == 'raisex':                              # an exception with a payload (a Lean term)
+            return pad + f'W.raise ({spec[1]})'
         if spec[0] == 'return':
-            if rest:
+            # statements after a `return` of the same list are unreachable (they follow an `if` whose
+            # branch returned); a `return` that is not the end of the function body needs an explicit value
+            if rest and len(spec) == 1:
                 raise Untranslatable('return before the end')
             return pad + (spec[1] if len(spec) > 1 else tail)
         if spec[0] == 'do':
@@ -497,6 +507,12 @@ def t_resolver():
     if not any(ast.unparse(s).replace(' ', '') == 'self._resolve_function=resolve_function' for s in init.body):
         raise Untranslatable('_BlockResolver.__init__ does not store resolve_function')
     out = []
+    tri = Tr(init, tests={}, iters={}, stmts={
+        'self._unresolved: list[tuple[Any, str, type[block.Block]]] = []': ('do', 'W.modify P.clearUnresolved'),
+        'self._unresolved = []': ('do', 'W.modify P.clearUnresolved'),
+        'self._resolve_function = v0': ('skip',)})          # checked above: it is `Circuit._validate_blk`
+    out.append(('_BlockResolver.__init__',
+                f'def resolverInit {PARAMS} : W σ Unit :=\n' + tri.block(init.body, 'W.pure ()', 1, {'resolve_function'})))
     ct = fn_node(R._check_type)
     check_plain(ct, ['obj', 'attr', 'blk', 'block_type'], decorators=['staticmethod'])
     tr = Tr(ct, tests={'isinstance(v2, v3)': 'P.isInstance s_ v2 v3'}, iters={}, stmts={})
